@@ -70,13 +70,15 @@ def run(tier):
     # every distribution object is created first and evaluated afterwards: several objects of one family are alive together,
     # as in a molecule with several blocks (a law must not depend on which other distributions exist)
     made = {}
-    for fam, plist in grids(tier).items():
+    # ... and laws of DIFFERENT families whose parameters coincide as location / scale (gauss(m, s) next to uniform(m, m + s)), created in both orders
+    order = list(grids(tier).items()) + [("gauss", [(12, 60), (500, 100)]), ("uniform", [(100, 120), (5000, 5050)])]
+    for fam, plist in order:
         for par in plist:
             try:
                 made[(fam, par)] = get_distribution(text(fam, par))
             except Exception as exc:
                 v.violation(f"C11:valid-distribution-rejected:{fam}", f"get_distribution({text(fam, par)!r}) raises {type(exc).__name__}: {exc}", {"text": text(fam, par)})
-    for fam, plist in grids(tier).items():
+    for fam, plist in order:
         for par in plist:
             if (fam, par) not in made:
                 continue
